@@ -107,7 +107,7 @@ def jobs_c01_front(tier, seed):
 
 
 def jobs_c01(tier, seed):
-    return jobs_c01_front(tier, seed)
+    return jobs_c01_front(tier, seed) + props_pipe.c01_pipe_jobs(tier, seed)
 
 
 def jobs_pipe(prop):
@@ -152,7 +152,7 @@ PROPS = {
                     'stack rule of the statement; also: every token exactly once, in order, in the flattened tree.',
         assumptions=COMMON_ASSUME + ['delimiters < and >; names are single ASCII lower-case letters']),
     'C01': dict(
-        jobs=jobs_c01, tv=('front',),
+        jobs=jobs_c01, tv=('front', 'pipe', 'list'),
         explanation='No feasible path reaches a panic terminator (overflow checks on), a panicking std model call (slice/str index, unwrap, '
                     'replace_range, explicit panic!) or the step budget: tokenize, element_parser::parse on every tag token and parser::parse '
                     'on every valid UTF-8 source of N bytes for the delimiter pool and for symbolic delimiters; tag bodies U(N).',
